@@ -281,6 +281,8 @@ pub use types::{
 
 #[allow(dead_code)]
 pub mod binary_parser;
+#[cfg(feature = "verif-hooks")]
+pub mod verif;
 pub mod de;
 pub use de::DecoderConfig;
 pub mod ser;
